@@ -375,8 +375,10 @@ func (i *info) MarshalJSON() ([]byte, error) {
 	if i.ctx != nil {
 		ctxError = fmt.Sprint(i.ctx.Err())
 	}
-	if i.Client() != nil {
-		client = i.Client().String()
+	// read the client once: it is set to nil when its connection is lost
+	rc := i.Client()
+	if rc != nil {
+		client = rc.String()
 	}
 
 	state := struct {
@@ -400,7 +402,7 @@ func (i *info) MarshalJSON() ([]byte, error) {
 		StopKey:         strconv.QuoteToASCII(string(i.stopKey)),
 		ContextInstance: fmt.Sprintf("%p", (i.ctx)),
 		Err:             ctxError,
-		ClientPtr:       fmt.Sprintf("%p", (i.Client())),
+		ClientPtr:       fmt.Sprintf("%p", rc),
 		Client:          client,
 		Available:       !i.IsUnavailable(),
 	}
